@@ -13,6 +13,7 @@ def noMalformed (l : Layers) : Prop :=
 def expected (s : Setting) : Tok :=
   match s.env, s.file with
   | .present, _ => .E
+  | .zero, _ => .Z
   | _, .present => .F
   | _, .zero => .Z
   | _, _ => .D
